@@ -1,0 +1,82 @@
+//go:build verif
+
+package cache
+
+// VerifYield, when set, is called at every lock / map / callback boundary of the
+// cache manager protocol (build tag verif only). The verification harness uses it
+// to park the calling goroutine and to force a schedule.
+var VerifYield func(point string)
+
+func verifYield(p string) {
+	if VerifYield != nil {
+		VerifYield(p)
+	}
+}
+
+// VerifProbe reports, without blocking, the protocol state the harness compares
+// with the model at the end of a schedule: names in the shared map, and whether
+// the manager mutex is free.
+func (m *Manager) VerifProbe() (names []string, mgrFree bool) {
+	mgrFree = m.mu.TryLock()
+	if !mgrFree {
+		return nil, false
+	}
+	for n := range m.sharedCaches {
+		names = append(names, n)
+	}
+	m.mu.Unlock()
+	return names, true
+}
+
+// VerifEntry returns identity (the item), scrapped flag and lock state (0 free,
+// 1 read-held, 2 write-held) of the shared entry called name; ok is false when absent.
+// The caller must make sure no protocol goroutine is running.
+func (m *Manager) VerifEntry(name string) (item Cachable, scrapped bool, lock int, ok bool) {
+	e, ok := m.sharedCaches[name]
+	if !ok {
+		return nil, false, 0, false
+	}
+	if e.mu.TryLock() {
+		e.mu.Unlock()
+		lock = 0
+	} else if e.mu.TryRLock() {
+		e.mu.RUnlock()
+		lock = 1
+	} else {
+		lock = 2
+	}
+	return e.item, e.scrapped, lock, true
+}
+
+// VerifTxFree reports whether the transaction mutex is free.
+func (t *Transaction) VerifTxFree() bool {
+	if t.mu.TryLock() {
+		t.mu.Unlock()
+		return true
+	}
+	return false
+}
+
+// VerifWritten returns, for every cache the transaction has registered as written,
+// its item, scrapped flag and lock state (as VerifEntry). Quiescent use only.
+func (t *Transaction) VerifWritten() map[string][3]any {
+	out := make(map[string][3]any)
+	for n, e := range t.writtenCaches {
+		lock := 2
+		if e.mu.TryLock() {
+			e.mu.Unlock()
+			lock = 0
+		} else if e.mu.TryRLock() {
+			e.mu.RUnlock()
+			lock = 1
+		}
+		out[n] = [3]any{e.item, e.scrapped, lock}
+	}
+	return out
+}
+
+func verifYield2(p, arg string) {
+	if VerifYield != nil {
+		VerifYield(p + ":" + arg)
+	}
+}
